@@ -5,7 +5,8 @@
    as a timeout; the failing operation then performs exactly one more exchange (QUIT) and leaves the
    connection broken and shut, and a shut connection refuses every further command without touching the
    network.  Hence at most two waits of the configured timeout per failing operation: the bound 2T that the
-   check measures on the real client.  PARTIAL: the asynchronous clients have no I/O deadline (F20). *)
+   check measures on the real clients (sync and tokio; the asynchronous client got its I/O deadline with
+   the repair of F20).  PARTIAL: the clock itself is measured, not proved. *)
 From Coq Require Import Strings.String.
 From LV Require Import Base.Bytes Base.Str Base.Utf8 Base.Res Base.Base64
   Model.Codec Model.Response Model.ServerInfo Model.Auth Model.Client Proofs.ClientProofs Proofs.TimeoutProofs.
